@@ -29,6 +29,7 @@ def gen_consts(v):
         ('VECTOR_E131_DATA', ac + 'VECTOR_E131_DATA'),
         ('ARTNET_MAX_MERGE_SOURCES', an + 'ArtNetNodeImpl::MAX_MERGE_SOURCES'),
         ('ARTNET_MERGE_TIMEOUT', an + 'ArtNetNodeImpl::MERGE_TIMEOUT'),
+        ('ARTNET_MAX_PORTS', an + 'ARTNET_MAX_PORTS'),
     ]
     out = os.path.join(v.VERIF, 'props', ID, 'coq', 'Gen.v')
     tmp = os.path.join(v.BUILD, ID, 'Gen.v.tmp')
@@ -56,7 +57,7 @@ RULE = ('histories of 1-30 packets (65% of the sACN ones as framing-layer bytes 
         'small}, terminate/preview/rev2 flags, start codes, frame lengths {0,1,2,512,513,small}, malformed DMP '
         'header/vector/increment/short PDUs, plus scripted scenarios (7th/8th source, priority hand-over both '
         'ways, expiry boundary, full sequence sweep); Art-Net from <= 4 addresses (incl. the wildcard address), '
-        'HTP and LTP (with SetMergeMode switches mid-history), gaps around 10 s, length-field/data-length mismatches; plus static-look histories: a sender repeating a byte-identical frame (sACN: with advancing sequence numbers) in short gaps summing past 10 s / 2.5 s next to a concurrently changing sender, then a late third (sACN: further/7th) sender. Compared after every packet: '
+        'HTP and LTP (with SetMergeMode switches mid-history; plus whole-node histories over all four output ports with coinciding port addresses, a merge mode per port, ports enabled/disabled/re-addressed and net/subnet changed in mid-history, compared port by port), gaps around 10 s, length-field/data-length mismatches; plus static-look histories: a sender repeating a byte-identical frame (sACN: with advancing sequence numbers) in short gaps summing past 10 s / 2.5 s next to a concurrently changing sender, then a late third (sACN: further/7th) sender. Compared after every packet: '
         'callback count, priority byte, registered buffer (SPEC) and the tracked-source tables (internal). '
         'After every packet the model driver also evaluates the extracted text-level specification (TextSpec/TextCheck: text_out, xstep, verdict; Art-Net: atext_step) and prints SPEC key txt = buffer agrees with the property text at every packet, or departs from it only in a classified way (known= hand-down gap / stale after discard / sequence window forgotten); histories with more than six live top-priority sources are not judged (text silent on which six). non-trivial = at least one callback and at least two distinct output buffers in the trace; '
         'distinct = distinct model output line')
@@ -338,6 +339,54 @@ def gen_sacn_static(rng):
     return 'sacn %d 1 %s' % (1 if rng.random() < 0.5 else 0, ','.join(steps))
 
 
+def gen_artn(rng):
+    """the whole Art-Net node: all four output ports, coinciding port addresses, a merge mode per port,
+    ports enabled / disabled / re-addressed and net / subnet changed in mid-history"""
+    net = rng.choice([0, 4, 4, 127])
+    subnet = rng.choice([0, 2, 2, 15])
+    univs = rng.choice([[3, 3], [3, 3, 3, 3], [3, 5], [3, 3, 5], [1, 2, 3, 4], [7, 7, 7]])
+    steps = ['n:%d' % net, 's:%d' % subnet]
+    ports = rng.sample(range(4), len(univs))
+    for prt, u in zip(ports, univs):
+        steps.append('e:%d:%d' % (prt, u))
+        if rng.random() < 0.5:
+            steps.append('m:%d:%d' % (prt, rng.randrange(2)))
+    rng.shuffle(steps)
+    addrs = rng.choice([[1, 2], [1, 2, 3], [1, 2, 3, 4], [1]])
+    cur = {'net': net, 'subnet': subnet}
+    n = rng.choice([4, 8, 12, 18])
+    for _ in range(n):
+        r = rng.random()
+        if r < 0.62:
+            dt = small_gap(rng)
+        elif r < 0.72:
+            dt = 0
+        else:
+            dt = rng.choice(GAPS + GAPS[5:] * 2)
+        fl = rng.choice([2, 2, 3, 4, 6, 8])
+        u = rng.choice(univs + univs + [rng.randrange(16)])
+        kw = {'net': cur['net'] if rng.random() < 0.93 else rng.choice([0, 3, 5]),
+              'univ': ((cur['subnet'] & 15) << 4) | (u & 15) if rng.random() < 0.93 else rng.randrange(256)}
+        if rng.random() < 0.08:
+            kw['lenf'] = rng.choice([0, 1, 2, fl + 1, 512])
+        steps.append(art_step(dt, rng.choice(addrs), rframe(rng, fl), **kw))
+        r = rng.random()
+        if r < 0.05:
+            steps.append('d:%d' % rng.randrange(5))
+        elif r < 0.12:
+            steps.append('e:%d:%d' % (rng.randrange(5), rng.choice(univs + [rng.randrange(32)])))
+        elif r < 0.18:
+            steps.append('m:%d:%d' % (rng.randrange(4), rng.randrange(2)))
+        elif r < 0.21:
+            cur['subnet'] = rng.choice([0, 2, 15, rng.randrange(16)])
+            steps.append('s:%d' % cur['subnet'])
+        elif r < 0.24:
+            cur['net'] = rng.choice([0, 4, 127, 128 + 4])
+            steps.append('n:%d' % cur['net'])
+            cur['net'] &= 127
+    return 'artn ' + ','.join(steps)
+
+
 def to_wire(rng, payload):
     """re-express an sACN history as framing-layer bytes for the real E131Inflator / E131InflatorRev2:
     the options byte carries preview (bit 7) and terminate (bit 6) together with every combination of the
@@ -370,8 +419,10 @@ def gen_cases(rng, tier):
                  else gen_sacn_static(rng))
             # most histories go through the real framing-layer decoders
             yield to_wire(rng, c) if rng.random() < 0.65 else c
-        elif r < 0.90:
+        elif r < 0.84:
             yield gen_art(rng)
+        elif r < 0.92:
+            yield gen_artn(rng)
         else:
             yield gen_art_static(rng)
 
@@ -380,6 +431,10 @@ def nontrivial(payload, md):
     outs = [v for k, v in md.items() if k.startswith('o') and k[1:].isdigit()]
     if not outs:
         return False
+    if payload.startswith('artn '):
+        data = [v for v in outs if not v.startswith('c|')]
+        cb = any(seg.startswith('1.') for v in data for seg in v.split('/'))
+        return cb and len(set(data)) >= 2
     cb = any(v.startswith('1|') for v in outs)
     bufs = set(v.rsplit('|', 1)[-1] for v in outs)
     return cb and len(bufs) >= 2
